@@ -103,3 +103,15 @@ Definition sub_records (vs vs' : list variant) : Prop :=
 
 (* the number of missed cleavages a derivation uses is not visible on the peptide alone; the
    declarative attribution for k is "not a product under the stricter k" *)
+
+(* ------------------------------------------------------------------ finding signature D14b under the switches *)
+(* Spec.v's "relaxed2" digestion (look-behind sites are soft: the engine's node-local evaluation may miss
+   them) extended by the switches: candidates without limits, then the forms, then the limits.  Used
+   only to CLASSIFY an emitted sequence that is not in fl_may_set (known finding D14b-lookbehind). *)
+Definition unlimited (x : input) : input :=
+  with_lim x (mkLimits (lim_k (in_lim x)) (-1000000000000) 0 1000000).
+
+Definition fl_relaxed2_set (x : input) (fl : flags) : list seq :=
+  flat_map (fun h =>
+    filter (keep protein_weights4 water4 (in_lim x)) (fl_forms fl (may_products_relaxed2 (unlimited x) h)))
+    (haplotypes false (in_vars x)).
